@@ -373,6 +373,10 @@ def strip_container_ids(t):
     return dict(t, id=-1, ch=[strip_container_ids(c) for c in t['ch']])
 
 
+def _same_key(a, b):
+    return a is b or a == b
+
+
 def inspect_case(spec, cfg=None, modes=()):
     """every inspection method of one treespec"""
     n = spec.num_children
@@ -399,6 +403,24 @@ def inspect_case(spec, cfg=None, modes=()):
         'entry': [idx(spec.entry, i, U.proj_key) for i in range(-n - 1, n + 1)],
     }
     import re
+    # the function spellings (optree.treespec_*) and the alias modules are the same operations as the methods
+    try:
+        fe = (optree.treespec_paths(spec) == spec.paths() and optree.treespec_accessors(spec) == spec.accessors()
+              and optree.treespec_entries(spec) == spec.entries() and optree.treespec_children(spec) == spec.children()
+              and optree.treespec_is_one_level(spec) == spec.is_one_level()
+              and (optree.treespec_one_level(spec) == spec.one_level())
+              and all(optree.treespec_child(spec, i) == spec.child(i) and _same_key(optree.treespec_entry(spec, i), spec.entry(i)) for i in range(n))
+              and optree.treespec_leaf(none_is_leaf=spec.none_is_leaf).is_leaf() and optree.treespec_none(none_is_leaf=False).num_leaves == 0
+              and optree.treespec_none(none_is_leaf=True).is_leaf()
+              and optree.pytree.flatten is optree.tree_flatten and optree.pytree.unflatten is optree.tree_unflatten
+              and optree.pytree.map is optree.tree_map and optree.pytree.iter is optree.tree_iter
+              and optree.treespec.from_collection is optree.treespec_from_collection and optree.treespec.tuple is optree.treespec_tuple
+              and all(getattr(optree.pytree, nm) is getattr(optree, 'tree_' + nm, getattr(optree, nm, None))
+                      for nm in optree.pytree.__all__ if hasattr(optree, 'tree_' + nm))
+              and all(getattr(optree.treespec, nm) is getattr(optree, 'treespec_' + nm) for nm in optree.treespec.__all__))
+    except Exception:  # noqa: BLE001
+        fe = False
+    o['function_forms_equal'] = bool(fe)
     o['repr'] = re.sub(r' at 0x[0-9a-f]+', '', repr(spec))
     o['str_is_repr'] = str(spec) == repr(spec)
     # rebuilding the root from its one-level spec and its children
